@@ -4,6 +4,7 @@
 cd /verif
 for d in seeded/${1:-C}*; do
   name=$(basename "$d"); id=${name%%-*}
+  if grep -q "obsolete on the repaired tree" "$d/meta.json"; then echo "$name obsolete (upstream repair made the seeded edit a no-op)"; continue; fi
   D=$(mktemp -d /dev/shm/verif-regress-XXXXXX)
   git -C /repo archive HEAD | tar -x -C "$D"
   ( cd "$D" && { git apply --unsafe-paths "/verif/$d/patch.diff" 2>/dev/null || patch -p1 -s < "/verif/$d/patch.diff"; } ) >/dev/null 2>&1 || { echo "$name PATCH-DOES-NOT-APPLY"; rm -rf "$D"; continue; }
